@@ -509,6 +509,8 @@ pub fn c02(tier: &str) -> i32 {
     let main = mk("views-tick1", 1, 10);
     with_congruent_prices(&mut plans, "main", &main, 3, if t { 5 } else { 4 });
     with_traders(&mut plans, "main", &main, 3, if t { 4 } else { 3 });
+    // clocks that start in (or cross into) the upper half of the range, at 2^32, 2^53 and at the end
+    with_clock_boundaries(&mut plans, &|_| {}, 3, if t { 4 } else { 3 });
     {
         let mut ob = main.clone();
         ob.prices = vec![10, 11];
@@ -593,6 +595,18 @@ pub fn c03(tier: &str) -> i32 {
     p.reset_tv = true;
     plans.push(plan("core + modify + toggles + counter reset, tick 1", p.clone(), 3, if t { 5 } else { 4 }));
     with_traders(&mut plans, "core + modify + toggles + counter reset", &p, 3, if t { 5 } else { 4 });
+    {
+        // the log must come back from a snapshot exactly as it was (also when a partly filled order has since moved)
+        let mut rl = p.clone();
+        rl.name = "ledger-reload".into();
+        rl.prices = vec![10, 11];
+        rl.limit_vols = vec![2];
+        rl.market_vols = vec![1];
+        rl.modify_vols = vec![3];
+        rl.toggles = false;
+        rl.reload_modes = vec![0];
+        plans.push(plan("two prices, re-pricing modifies, in-memory reload as an operation", rl, 3, if t { 6 } else { 5 }));
+    }
     {
         let mut ob = p.clone();
         ob.prices = vec![10, 11];
@@ -692,6 +706,16 @@ pub fn c04(tier: &str) -> i32 {
     p.market_vols = vec![1, 3];
     plans.push(plan("place/cancel/modify on every id in every status, toggles, set_time", p.clone(), 3, if t { 5 } else { 4 }));
     with_traders(&mut plans, "every request on every id in every status", &p, 3, if t { 4 } else { 3 });
+    for tick in [2u32, 10] {
+        // tick sizes that do not divide 2^32-1 (the price a buy market order carries is off their grid)
+        let mut q = p.clone();
+        q.name = format!("lifecycle-tick{}", tick);
+        q.tick = tick;
+        q.prices = vec![10 * tick, 11 * tick];
+        q.set_time_op = false;
+        q.modify_vols = vec![1];
+        plans.push(plan(&format!("tick {}: every request on every id, toggles", tick), q, 3, if t { 4 } else { 3 }));
+    }
     let mut pe = p.clone();
     pe.name = "lifecycle-events".into();
     pe.events = true;
@@ -802,6 +826,16 @@ pub fn c06(tier: &str) -> i32 {
     p2.modify_vols = vec![1, 2, 3];
     plans.push(plan("reduced alphabet, deeper", p2.clone(), 3, if t { 6 } else { 5 }));
     with_traders(&mut plans, "reduced alphabet", &p2, 3, if t { 5 } else { 4 });
+    for tick in [2u32, 10] {
+        // the highest valid grid prices for tick sizes that do not divide 2^32-1 (re-pricing onto the last one)
+        let top = (u32::MAX - 1) / tick;
+        let mut tb = p2.clone();
+        tb.name = format!("modify-top-of-grid-tick{}", tick);
+        tb.tick = tick;
+        tb.prices = vec![(top - 1) * tick, top * tick];
+        tb.modify_vols = vec![1, 3];
+        plans.push(plan(&format!("tick {}: the two highest grid prices", tick), tb, 3, if t { 5 } else { 4 }));
+    }
     {
         let mut cg = p2.clone();
         cg.modify_vols = vec![1];
